@@ -34,7 +34,9 @@ def pred_coq(p):
 
 
 def gen_grammar(r):
-    """nonterminals N0..; each with 0-2 cfg attributes; alternatives with 0-2 cfg attributes"""
+    """nonterminals N0..; each with 0-2 cfg attributes; alternatives with 0-2 cfg attributes; every other
+    grammar declares its terminals in an extern block whose conversions carry cfg attributes too (two
+    conversions of one terminal under exclusive predicates, with different payload types)"""
     n = r.randint(2, 4)
     nts = []
     for i in range(n):
@@ -43,7 +45,23 @@ def gen_grammar(r):
             sym = r.choice(['"x"', '"y"', '"(" N%d ")"' % r.randrange(n), 'N%d "z"' % r.randrange(n), '"w"'])
             alts.append({"cfg": [gen_pred(r) for _ in range(r.choice([0, 0, 1, 1, 2]))], "text": "%s => ()" % sym})
         nts.append({"cfg": [gen_pred(r) for _ in range(r.choice([0, 0, 0, 1, 2])) if i > 0], "alts": alts})
+    if r.random() < 0.5:
+        convs = []
+        for k, t in enumerate(['"x"', '"y"', '"z"', '"w"', '"("', '")"']):
+            z = r.random()
+            if z < 0.45:
+                p = gen_pred(r, 1)
+                convs.append({"cfg": [p], "text": "%s => Tok::A%d(<i64>)" % (t, k)})
+                convs.append({"cfg": [("not", [p])], "text": "%s => Tok::B%d(<i32>)" % (t, k)})
+            elif z < 0.6:
+                convs.append({"cfg": [gen_pred(r, 1)], "text": "%s => Tok::C%d" % (t, k)})
+            else:
+                convs.append({"cfg": [], "text": "%s => Tok::D%d" % (t, k)})
+        nts.append({"cfg": [], "alts": convs, "extern": True})
     return nts
+
+
+EXT_HEAD = "extern {\n    type Location = usize;\n    type Error = ();\n    enum Tok {"
 
 
 def render(nts, keep=None):
@@ -51,6 +69,14 @@ def render(nts, keep=None):
     L = ["grammar;"]
     if keep is None:
         for i, n in enumerate(nts):
+            if n.get("extern"):
+                L.append(EXT_HEAD)
+                for a in n["alts"]:
+                    for c in a["cfg"]:
+                        L.append("        #[cfg(%s)]" % pred_text(c))
+                    L.append("        %s," % a["text"])
+                L.append("    }\n}")
+                continue
             for c in n["cfg"]:
                 L.append("#[cfg(%s)]" % pred_text(c))
             L.append("%sN%d: () = {" % ("pub " if i == 0 else "", i))
@@ -61,6 +87,12 @@ def render(nts, keep=None):
             L.append("};")
     else:
         for i, alts in keep:
+            if nts[i].get("extern"):
+                L.append(EXT_HEAD)
+                for j in alts:
+                    L.append("        %s," % nts[i]["alts"][j]["text"])
+                L.append("    }\n}")
+                continue
             L.append("%sN%d: () = {" % ("pub " if i == 0 else "", i))
             for j in alts:
                 L.append("    %s," % nts[i]["alts"][j]["text"])
@@ -150,7 +182,7 @@ def run(tier):
                    "every 5th case through CARGO_FEATURE_* and process_dir; non-trivial = both variants accepted",
            "distribution": {"grammars": ng, "feature_sets": len(subsets), "both_rejected": nerr}, "samples": samples or [{"note": "no pruned sample"}]}
     vlib.write_evidence(PROP, tier, "proof", cov, time.time() - t0, violations=len(rep.viol),
-                        assumptions=["extern-token conversions with cfg are not generated yet (nonterminals and alternatives only)"])
+                        assumptions=["cfg on `use` items, match blocks and grammar parameters is not generated"])
     return rep.finish()
 
 
